@@ -386,7 +386,8 @@ def kvGet (k : String) (ws : List String) : Option String :=
 `case <name> kind=acc max=<n|default> tmo=<ms|default>`; ops `ready [w]` (readiness asked by task `w` = 0..2,
 distinct wakers; `r=<mask>`: bit `w` set = task `w` has been woken), `call <r|o> <r13|r12|o13|o12>`,
 `poll k`, `drop k`, `cflight k full|part|rest`, `garbage k <kind>`, `close k`, `advance ms`, `run ms`,
-`fnew` / `fset f ms` / `fclone f` / `fsvc f` (acceptor factories of this thread: `Acceptor::new`,
+`setmax n` (`max_concurrent_tls_connect(n)` after this thread's counter exists) / `probe` (the limit a freshly
+spawned thread gets), `fnew` / `fset f ms` / `fclone f` / `fsvc f` (acceptor factories of this thread: `Acceptor::new`,
 `set_handshake_timeout`, `clone`, `ServiceFactory::new_service`), `call <r|o> <cli> s` (through service `s`),
 `echo k n seed`, `xfer k <s2c|c2s|both> n seed cap rchunk <d|b> <all|chunk|cflush|vec> <flush|shut> <exact|small>`
 (payload over an accepted stream through a back-pressuring / short-reading / buffering transport; the
@@ -407,6 +408,8 @@ structure AccCase where
   /-- acceptor factories and the services built from them on this thread; factory 0 / service 0 are the
   ones the case header builds (`Acceptor::new`, `set_handshake_timeout(tmo)`, `new_service`) -/
   cfg : Cfg
+  /-- the process-wide `MAX_CONN` (what a thread created now gets); the case's own thread keeps `svc.cap` -/
+  proc : Proc := {}
   conns : Array Conn := #[]
   results : Array (Option Outcome) := #[]
   /-- connections whose stream was shut down by a transfer -/
@@ -498,6 +501,14 @@ def step (c : AccCase) (ws : List String) : AccCase × String :=
         ({ c with svc := c.svc.callT tmo c.now, conns := c.conns.push {}, results := c.results.push none, fin := c.fin.push false }, s!"ok {c.conns.size}")
       else (c, "bad-op")
     | none => (c, "bad-op")
+  | ["setmax", n] =>
+    -- `max_concurrent_tls_connect(n)` on this thread, whose counter exists already: no effect here
+    match (canonNat n).filter (· ≤ 300) with
+    | some n => ({ c with proc := c.proc.setMax n }, "ok")
+    | none => (c, "bad-op")
+  | ["probe"] =>
+    -- a freshly spawned thread: its counter is created with the current process-wide limit
+    (c, s!"limit={(c.proc.newThread 0).cap}")
   | ["fnew"] =>
     if c.cfg.facs.length < 8 then ({ c with cfg := c.cfg.step .new }, s!"ok f={c.cfg.facs.length}") else (c, "bad-op")
   | ["fset", f, ms] =>
@@ -602,7 +613,11 @@ def step (c : AccCase) (ws : List String) : AccCase × String :=
 end AccCase
 
 def parseAccHeader (rest : List String) : Option AccCase :=
-  if rest.length != 3 || kvGet "kind" rest != some "acc" then none else
+  -- optional 4th field `set=main|self`: the thread `max_concurrent_tls_connect(max)` is called on (the harness
+  -- main thread before the case's thread exists / the case's thread before its first service): same model
+  let setOk := (rest.length == 3 && (kvGet "set" rest).isNone) ||
+    (rest.length == 4 && (kvGet "set" rest == some "main" || kvGet "set" rest == some "self"))
+  if !setOk || kvGet "kind" rest != some "acc" then none else
   let max? : Option Nat := match kvGet "max" rest with
     | some "default" => some ActixNet.Src.tlsDefaultMaxConn
     | some m => (canonNat m).filter (· ≤ 300)
@@ -614,7 +629,8 @@ def parseAccHeader (rest : List String) : Option AccCase :=
   match max?, tmo? with
   | some m, some t =>
     -- `Acceptor::new` (+ `set_handshake_timeout` unless `tmo=default`), then `new_service`
-    some { svc := { cap := m, tmo := t },
+    some { svc := ({ maxConn := m } : ActixNet.Tls.Proc).newThread t,
+           proc := { maxConn := m },
            cfg := (match kvGet "tmo" rest with
              | some "default" => ActixNet.Tls.Cfg.run {} [.new, .svc 0]
              | _ => ActixNet.Tls.Cfg.run {} [.new, .set 0 t, .svc 0]) }
